@@ -95,4 +95,4 @@ META = dict(
     technique="runtime monitoring: sanitizers + guard pages + error-channel table + view containment + output canaries",
 )
 
-CFG["rule"] += (" " + "Additions: half of the processes install a logger that renders every diagnostic with vsnprintf into an exactly sized heap buffer; the XML callback reports a nesting deeper than max_depth + 1; corpus seeds with '<a><e/>' chains of 19-300 levels and unclosed elements with 255/256/257-byte names.")
+CFG["rule"] += (" " + "Additions: half of the processes install a logger that renders every diagnostic with vsnprintf into an exactly sized heap buffer; the XML callback reports a nesting deeper than max_depth + 1; corpus seeds with '<a><e/>' chains of 19-300 levels and unclosed elements with 255/256/257-byte names. Half of the base64/hex decodes get an output buffer that already reports a length (a re-used buffer that was not reset).")
